@@ -466,7 +466,7 @@ class State:
                 c = -INF if lo <= -INF else k * lo
             else:
                 c = -INF if hi >= INF else k * hi
-            if c < 0:
+            if c < 0 or (k > 0 and lo > -INF) or (k < 0 and hi < INF):
                 bad.append((c, s, k))
         if not bad:
             return False
